@@ -140,10 +140,28 @@ def gen(repo) -> str:
     src_cff = ast.unparse(cff)
     if "ST_MTIME] < filemtime" not in src_cff or "os.path.exists(path)" not in src_cff:
         raise RegenError("%s: _compile_from_file no longer decides by `not exists(path) or mtime(path) < filemtime`" % rel_t)
-    checks_source_name = any(
-        isinstance(n, ast.Compare) and len(n.ops) == 1 and isinstance(n.ops[0], ast.NotEq)
-        and "_template_filename" in ast.unparse(n.left) and ast.unparse(n.comparators[0]) == "filename"
-        for n in ast.walk(cff))
+    def _same_wrapper(a, b):
+        """(inner a, inner b) when both sides are bare, or both are the same one-argument call f(...) - e.g.
+        os.path.normpath on both names; None otherwise"""
+        if isinstance(a, ast.Call) and isinstance(b, ast.Call):
+            if ast.unparse(a.func) == ast.unparse(b.func) and len(a.args) == 1 == len(b.args) \
+                    and not a.keywords and not b.keywords:
+                return a.args[0], b.args[0]
+            return None
+        if isinstance(a, ast.Call) or isinstance(b, ast.Call):
+            return None
+        return a, b
+
+    # `module._template_filename != filename`, possibly with the same normalisation applied to both names
+    # (the lookup hands Template a posixpath.normpath'ed file name, the model's file names are (directory, uri)
+    # pairs: equality up to normpath is equality there)
+    checks_source_name = False
+    for n in ast.walk(cff):
+        if isinstance(n, ast.Compare) and len(n.ops) == 1 and isinstance(n.ops[0], ast.NotEq):
+            inner = _same_wrapper(n.left, n.comparators[0])
+            if inner and isinstance(inner[0], ast.Attribute) and inner[0].attr == "_template_filename" \
+                    and isinstance(inner[1], ast.Name) and inner[1].id == "filename":
+                checks_source_name = True
     # is the staleness of an existing module file decided before the module file is imported?
     cmp_lines = [n.lineno for n in ast.walk(cff) if isinstance(n, ast.Compare) and len(n.ops) == 1
                  and isinstance(n.ops[0], ast.Lt) and ast.unparse(n.comparators[0]) == "filemtime"]
